@@ -1,43 +1,6 @@
 /-
-  Proofs: SDES, FCI, feedback and compound builders refine their RFC images.
+  Proofs (split over several files).
 -/
-import Rtcp.Proofs.WritersFixed
-
-namespace Rtcp.Proofs
-open Rtcp Rtcp.Impl Rtcp.Spec Rtcp.Props
-
-theorem item_refines (b : SdesItemBuilder) :
-    Refines ⟨b.calcSize, b.writeUnchecked, none⟩ (itemImage b) := by sorry
-
-theorem chunk_refines (b : SdesChunkBuilder) :
-    Refines ⟨b.calcSize, b.writeUnchecked, none⟩ (chunkImage b) := by sorry
-
-theorem sdes_refines (b : SdesBuilder) : Refines b.toWriter (sdesImage b) := by sorry
-
-theorem nack_sorted_add (b : NackBuilder) (s : UInt16) (h : b.rtpSeq.Pairwise (· < ·)) :
-    (b.addRtpSequence s).rtpSeq.Pairwise (· < ·) := by sorry
-
-theorem nack_refines (b : NackBuilder) (h : b.rtpSeq.Pairwise (· < ·)) : Refines b.toFci.w (nackImage b) := by sorry
-theorem fir_refines (b : FirBuilder) : Refines b.toFci.w (firImage b) := by sorry
-theorem sli_refines (b : SliBuilder) : Refines b.toFci.w (sliImage b) := by sorry
-theorem rpsi_refines (b : RpsiBuilder) : Refines b.toFci.w (rpsiImage b) := by sorry
-theorem pli_refines : Refines pliFci.w [] := by sorry
-
-theorem fb_refines (k : FbKind) (f : FciB)
-    (hf : match f with | .nack b => b.rtpSeq.Pairwise (· < ·) | _ => True) (p : UInt8) (s m : UInt32) :
-    Refines (FbBuilder.toWriter ⟨k, f.toFci, p, s, m⟩) (fbImage k f p s m) := by sorry
-
-theorem compound_refines (ms : List Writer) (imgs : List Bytes)
-    (h : (List.length ms = List.length imgs) ∧ ∀ i (h1 : i < ms.length) (h2 : i < imgs.length), Refines ms[i] imgs[i]) :
-    Refines (CompoundBuilder.toWriter ms) imgs.flatten := by sorry
-
-theorem compound_size_sum (ms : List Writer) (n : Nat) (h : CompoundBuilder.calcSize ms = .ok n) :
-    ∃ sizes : List Nat, sizes.length = ms.length ∧ sizes.sum = n ∧
-      ∀ i (hi : i < ms.length), ms[i].calcSize = .ok (sizes.getD i 0) := by sorry
-
-theorem compound_accept_iff (ms : List Writer) (hnp : ∀ m ∈ ms, m.calcSize ≠ .panic) :
-    (∃ n, CompoundBuilder.calcSize ms = .ok n) ↔
-      (∀ m ∈ ms, ∃ k, m.calcSize = .ok k) ∧
-      (∀ i (hi : i < ms.length), i + 1 < ms.length → (ms[i].getPadding.getD 0) = 0) := by sorry
-
-end Rtcp.Proofs
+import Rtcp.Proofs.WritersSdes
+import Rtcp.Proofs.WritersFci
+import Rtcp.Proofs.WritersCompound
